@@ -225,6 +225,57 @@ def rule_scramble(ctx) -> None:
     chk.decide(ok, "C13.scramble", fn.qual + " ranges", "mask is 32 bit little-endian, align 8 bit", "", "", A.loc(OTFAD, fn.node))
 
 
+def rule_dispatch_addresses(ctx) -> None:
+    """C13.own-address: every blob (image or segment) is encrypted at ITS OWN absolute address; C13.every-engine: every BEE engine is
+    offered every block (whether a block falls into an engine's regions is decided by that engine, block by block)."""
+    chk = ctx.chk
+    for rp, cn in (("spsdk/utils/crypto/iee.py", "IeeNxp"), ("spsdk/utils/crypto/otfad.py", "OtfadNxp")):
+        fn = ctx.own(rp, cn, "export_image") if ctx.prog.cls(rp, cn).method("export_image") else ctx.own(rp, cn, "binary_image")
+        calls = [c for c in ast.walk(fn.node) if isinstance(c, ast.Call) and norm(c.func) == "self.encrypt_image"]
+        if len(calls) < 2:
+            raise AnalysisError(f"C13.own-address: encrypt_image call sites of {fn.qual} not found")
+        for c in calls:
+            data = norm(A.arg_of(c, 0, "image"))
+            addr = A.inline_locals(fn.node, A.arg_of(c, 1, "base_addr"))
+            obj = data[:-len(".binary")] if data.endswith(".binary") else None
+            an = norm(addr)
+            ok = obj is not None and f"{obj}.absolute_address" in an and all(f"{o}.absolute_address" not in an for o in ("binary", "segment") if o != obj)
+            chk.decide(ok, "C13.own-address", f"{fn.qual} encrypt {data}", f"`{data}` is encrypted at `{an}` - its own absolute address plus the table/key-blob base",
+                       f"`{data}` is encrypted at `{an}`, which is not derived from `{obj}.absolute_address` (every segment would be encrypted as if it sat at another blob's address)", "", A.loc(rp, c))
+    chk.floor("C13.own-address", 4)
+    # BEE: each block is offered to every configured engine
+    BEE = "spsdk/image/bee.py"
+    fn = ctx.own(BEE, "BeeNxp", "export_image")
+    loops = [n for n in ast.walk(fn.node) if isinstance(n, ast.For) and norm(n.iter) == "self.headers"]
+    if len(loops) != 1:
+        raise AnalysisError("C13.every-engine: loop over the engine headers not found")
+    from ..engines.ordereval import Evaluator, Obj, Unsupported
+    probs = []
+    n = 0
+    for inside in ((False, False), (True, False), (False, True), (True, True)):
+        offered = []
+
+        def sym(e, inside=inside, offered=offered):
+            if isinstance(e, ast.Call) and isinstance(e.func, ast.Attribute) and e.func.attr == "encrypt_block":
+                offered.append(holder["ev"].ev(e.func.value).ix)
+                return holder["ev"].ev(e.args[1])
+            if isinstance(e, ast.Call) and isinstance(e.func, ast.Attribute) and e.func.attr == "is_inside_region":
+                return inside[holder["ev"].ev(e.func.value).ix]
+            return None
+        holder = {}
+        ev = Evaluator({"self.headers": (Obj(ix=0), Obj(ix=1)), "base_address": 0x1000, "block": b"x"}, sym)
+        holder["ev"] = ev
+        try:
+            ev.run([loops[0]])
+        except Unsupported as u:
+            raise AnalysisError(f"C13.every-engine: engine loop left the fragment: {u}")
+        n += 1
+        if offered != [0, 1]:
+            probs.append(f"engine bounding boxes contain the block: {inside} -> block offered to engines {offered}")
+    chk.decide(not probs, "C13.every-engine", fn.qual, f"each block is passed to both engines in order, whatever the engines' bounding boxes say ({n} cases); the FAC region test inside encrypt_block decides",
+               "; ".join(probs[:2]), "for header in self.headers: if header: block = header.encrypt_block(base_address, block)", A.loc(BEE, loops[0]))
+
+
 def run(ctx) -> None:
     ctx.chk.explain("C13: address-range predicates decided on order types; Otfad/Iee.encrypt_image evaluated on finite models (scaled data unit, blobs that fit exactly, overhang or miss) "
                     "against the block-containment reference; per-blob cipher loops checked for stride x counter-unit agreement; OTFAD key-blob layout and CRC input by symbolic "
@@ -233,6 +284,7 @@ def run(ctx) -> None:
     ctx.rule(rule_image_loops)
     ctx.rule(rule_keyblob_layout)
     ctx.rule(rule_scramble)
+    ctx.rule(rule_dispatch_addresses)
     ctx.chk.assumptions = ["AES-CTR/XTS/key-wrap wrappers as decided in C09", "OTFAD end addresses may be inclusive (…3FF) or aligned; IEE end addresses are aligned (exclusive) as documented",
                            "not decided: that the hardware model decrypts (values), byte-swap permutations"]
 
